@@ -43,7 +43,7 @@ package hash
 //@   requires hash != nil && hash.h != nil
 //@   modifies nothing
 //@   allocates
-//@   ensures result != nil && result.h != nil
+//@   ensures result != nil && result.h != nil && fresh(result)
 
 //@ func (*Hash).Fork
 //@   nopanic[C05]
@@ -107,3 +107,19 @@ package hash
 //@   summary hstate(result) == hstate(hash)
 //@ func (*Hash).Fork
 //@   summary hstate(result) == fold(data, hstate(hash), acc, x, hw(acc, habs(x)))
+
+// ---------------------------------------------------------------- encoders (C19, C09, C10): what WriteTo puts on the wire
+//@ spec fn wcat(Int, Int) Int
+//@ spec fn wabs(Iface) Int
+//@ func (BytesWithDomain).WriteTo
+//@   nopanic[C05]
+//@   requires w != nil
+//@   ensures[C19] result1 == nil ==> wlog(w) == wcat(old(wlog(w)), bval(b.Bytes))
+//@ func (Commitment).WriteTo
+//@   nopanic[C05]
+//@   requires w != nil
+//@   ensures[C19] result1 == nil ==> wlog(w) == wcat(old(wlog(w)), bval(c))
+//@ func (Decommitment).WriteTo
+//@   nopanic[C05]
+//@   requires w != nil
+//@   ensures[C19] result1 == nil ==> wlog(w) == wcat(old(wlog(w)), bval(d))
